@@ -96,8 +96,8 @@ theorem readSized_keys (A : AEAD) (r : Rd) (sk rk sn : Bytes) (h : r.Keys sk rk 
         cases e2 <;> exact h2
 
 
-theorem write_keys (A : AEAD) (pad : Bytes) (sc : SC) (data : Bytes) :
-    (write A pad sc data).sc.sendKey = sc.sendKey ∧ (write A pad sc data).sc.recvKey = sc.recvKey := by
+theorem write_keys (A : AEAD) (sc : SC) (data : Bytes) :
+    (write A sc data).sc.sendKey = sc.sendKey ∧ (write A sc data).sc.recvKey = sc.recvKey := by
   unfold write
   generalize chunksOf data = chunks
   generalize ([] : Bytes) = wire
@@ -112,13 +112,13 @@ theorem write_keys (A : AEAD) (pad : Bytes) (sc : SC) (data : Bytes) :
       simp only
       exact ih { sc with sendNonce := nn } _ _
 
-theorem authenticate_ok_inv (P : Prims) (A : AEAD) (pad locPriv w1 conn rs ss ch : Bytes) (sc : SC)
-    (h : (authenticate P A pad locPriv w1 conn rs ss ch).result = .ok sc) :
-    (authenticate P A pad locPriv w1 conn rs ss ch).challenge = ch ∧
+theorem authenticate_ok_inv (P : Prims) (A : AEAD) (locPriv w1 conn rs ss ch : Bytes) (sc : SC)
+    (h : (authenticate P A locPriv w1 conn rs ss ch).result = .ok sc) :
+    (authenticate P A locPriv w1 conn rs ss ch).challenge = ch ∧
     (∃ sig, P.verify sc.remPubKey ch sig = true) ∧ sc.recvKey = rs ∧ sc.sendKey = ss := by
   unfold authenticate at h ⊢
-  have hk := write_keys A pad ⟨ss, rs, nonceOf 0, nonceOf 0, [], []⟩ (encAuth (P.pubKey locPriv) (P.sign locPriv ch))
-  obtain ⟨w, hw⟩ : ∃ w, w = write A pad ⟨ss, rs, nonceOf 0, nonceOf 0, [], []⟩
+  have hk := write_keys A ⟨ss, rs, nonceOf 0, nonceOf 0, [], []⟩ (encAuth (P.pubKey locPriv) (P.sign locPriv ch))
+  obtain ⟨w, hw⟩ : ∃ w, w = write A ⟨ss, rs, nonceOf 0, nonceOf 0, [], []⟩
       (encAuth (P.pubKey locPriv) (P.sign locPriv ch)) := ⟨_, rfl⟩
   simp only [← hw] at h hk ⊢
   by_cases hwp : w.panicked = true
@@ -148,12 +148,12 @@ theorem authenticate_ok_inv (P : Prims) (A : AEAD) (pad locPriv w1 conn rs ss ch
 is not blacklisted, the DH computation succeeded, the challenge and the two keys come from the
 KDF of that shared secret (split by `locIsLeast`), and the key stored as `remPubKey` came with a
 signature that VERIFIES over this session's challenge. -/
-theorem handshake_ok_inv (P : Prims) (A : AEAD) (pad locPriv locEphPriv incoming : Bytes) (sc : SC)
-    (h : (makeSecretConnection P A pad locPriv locEphPriv incoming).result = .ok sc) :
+theorem handshake_ok_inv (P : Prims) (A : AEAD) (locPriv locEphPriv incoming : Bytes) (sc : SC)
+    (h : (makeSecretConnection P A locPriv locEphPriv incoming).result = .ok sc) :
     ∃ remEph dhs,
       hasSmallOrder remEph = false ∧
       P.dh locEphPriv remEph = some dhs ∧
-      (makeSecretConnection P A pad locPriv locEphPriv incoming).challenge =
+      (makeSecretConnection P A locPriv locEphPriv incoming).challenge =
         (deriveSecrets (P.kdf dhs) (locIsLeast (P.ephPub locEphPriv) remEph)).2.2 ∧
       (∃ sig, P.verify sc.remPubKey (deriveSecrets (P.kdf dhs) (locIsLeast (P.ephPub locEphPriv) remEph)).2.2 sig = true) ∧
       sc.recvKey = (deriveSecrets (P.kdf dhs) (locIsLeast (P.ephPub locEphPriv) remEph)).1 ∧
@@ -173,7 +173,7 @@ theorem handshake_ok_inv (P : Prims) (A : AEAD) (pad locPriv locEphPriv incoming
         | none => simp [hdh] at h
         | some dhs =>
           simp only [hdh] at h ⊢
-          obtain ⟨h1, h2, h3, h4⟩ := authenticate_ok_inv P A pad locPriv _ _ _ _ _ sc h
+          obtain ⟨h1, h2, h3, h4⟩ := authenticate_ok_inv P A locPriv _ _ _ _ _ sc h
           exact ⟨remEph, dhs, by simpa using hso, hdh, h1, h2, h3, h4⟩
 
 theorem deriveSecrets_challenge (okm : Bytes) (least : Bool) :
